@@ -512,6 +512,23 @@ def long_inputs_suite(world, pool, tier, rng):
                 metas.append((len(world.ops), {"kind": "verify", "mut": "alg header of %d characters (%s + %d)" % (len(name), base.decode() or "-", n),
                                                "may_accept": False, "must_accept": False, "cfg": ck}))
                 world.op("ck %d verify %s" % (ck, hx(tok)), tag="verify")
+    # whole tokens of every size up to a few megabytes: genuine ones verify, damaged ones fail, the error state always tells
+    # (the model is asked up to 100000 characters; beyond that the property's own rule judges the implementation's answer)
+    for T in sizes([200, 1000, 4095, 4096, 4097, 65535, 65536, 65537, 99000, 262144, 1048575, 1048576, 1048577, 1048700] + ([3000000, 16777300] if thorough else [2500000]), lo=120):
+        room = (T - 90) * 3 // 4
+        body = seg(b'{"sub":"x","pad":"' + b"p" * max(0, room) + b'"}')
+        h = seg({"alg": "HS256", "typ": "JWT"})
+        sg = hs_sig(K.ALG_ORD["HS256"], pool.keys["oct32"].k, h + b"." + body)
+        good = h + b"." + body + b"." + sg
+        bad_sig = good[:-1] + (b"A" if good[-1:] != b"A" else b"B")
+        bad_pay = h + b"." + body[:-2] + (b"AA" if body[-2:] != b"AA" else b"BB") + b"." + sg
+        for what, tok, ck, ok in (("genuine", good, 1, True), ("last signature character changed", bad_sig, 1, False), ("payload changed", bad_pay, 1, False),
+                                  ("genuine, checker without key", good, 0, False), ("genuine again", good, 1, True)):
+            metas.append((len(world.ops), {"kind": "verify", "mut": "token of %d characters, %s" % (len(tok), what), "may_accept": ok, "must_accept": ok, "cfg": ck}))
+            if len(tok) <= 100000:
+                world.op("ck %d verify %s" % (ck, hx(tok)), tag="verify")
+            else:
+                world.op("ck %d verify %s" % (ck, hx(tok)), "echo", cmp=False, tag="verify")
     # long members in JWKs: every item is flagged with a message or usable
     slot = 960
     jw = []
@@ -1394,6 +1411,26 @@ def setget_suite(world, pool, tier, rng):
             snap = PS.show_get("json", 0, m.d)
             metas.append((len(world.ops), {"kind": "setget", "op": "snapshot", "want": snap, "on": "builder-" + which}))
             world.op("bl 0 %sget json -" % which, tag="setget")
+    # values and whole maps of every size: one long string, one array / object whose text has that length, that many short
+    # members; each read back typed, as JSON, and as the whole-object snapshot
+    for zi, n in enumerate(sizes([1, 100, 200, 250, 300] + STD_SIZES + [8191, 8192, 8193, 30000], lo=1, hi=30000)):
+        which = "h" if zi % 2 == 0 else "c"
+        arr = b"[" + b",".join(b"%d" % (i % 10) for i in range(max(1, (n - 1) // 2))) + b"]"
+        obj = JL.dumps({"k%03d" % i: "v" for i in range(max(1, n // 11))})
+        progs = [[("set", "str", hx(b"s"), hx(b"x" * n), 1), ("get", "str", hx(b"s")), ("get", "json", hx(b"s"))],
+                 [("set", "json", hx(b"a"), hx(arr), 1), ("get", "json", hx(b"a")), ("get", "str", hx(b"a"))],
+                 [("set", "json", hx(b"o"), hx(obj), 1), ("get", "json", hx(b"o"))],
+                 [("set", "str", hx(b"m%04d" % i), hx(b"v"), 1) for i in range(max(1, n // 12))] + [("get", "str", hx(b"m0000"))]]
+        for pr in progs:
+            world.op("bl 0 new", tag="cfg")
+            m = PS.PyMap()
+            for oi, op in enumerate(pr):
+                want = _py_apply(m, op)
+                metas.append((len(world.ops), {"kind": "setget", "op": ("size %d: " % n) + str(op)[:60], "want": want, "on": "builder-" + which}))
+                world.op(_line("bl 0", which, op), tag="setget")
+                if oi >= len(pr) - 2:
+                    metas.append((len(world.ops), {"kind": "setget", "op": "snapshot (size %d)" % n, "want": PS.show_get("json", 0, m.d), "on": "builder-" + which}))
+                    world.op("bl 0 %sget json -" % which, tag="setget")
     # an application that keeps ONE jwt_value_t across calls and only fills in what the next call needs: what the
     # previous call left in .error must not leak into the next answer
     world.op("valreuse 1", "echo", cmp=False, tag="cfg")
@@ -1527,6 +1564,52 @@ def builder_suite(world, pool, tier, rng):
             world.op("bl 0 hget json -", tag="setget")
             metas.append((len(world.ops), {"kind": "setget", "op": "claims-after-gen", "want": PS.show_get("json", 0, b.claims.d), "on": "builder"}))
             world.op("bl 0 cget json -", tag="setget")
+    # sessions: ONE builder makes many tokens; between them the callback is replaced, removed or put back, and the builder's
+    # own headers and claims are edited.  A callback's edits belong to the token it was called for and to no other.
+    def mk_cb(prog):
+        def cb(h, c):
+            from lib import unhx
+            for st in prog.split(","):
+                a = st.split(":")
+                tgt = h if a[0][0] == "h" else c
+                if a[0][1:] == "set":
+                    raw = unhx(a[3]) if a[1] in ("str", "json") else a[3]
+                    tgt.set(a[1], unhx(a[2]), raw, a[4] != "0")
+                elif a[0][1:] == "del":
+                    tgt.delete(unhx(a[1]))
+        return cb
+    sprogs = [None, None,
+              "hset:str:%s:%s:1" % (hx(b"kid"), hx(b"key-A")), "hset:str:%s:%s:1" % (hx(b"kid"), hx(b"key-B")),
+              "hset:str:%s:%s:1,cset:str:%s:%s:1" % (hx(b"kid"), hx(b"key-C"), hx(b"jti"), hx(b"t-1")),
+              "hdel:%s" % hx(b"kid"), "hdel:%s,cdel:%s" % (hx(b"typ"), hx(b"sub")), "hset:json:-:%s:1" % hx(b'{"cty":"x","crit":["cty"]}'),
+              "cset:int:%s:7:1" % hx(b"lvl"), "hset:str:%s:%s:0" % (hx(b"kid"), hx(b"not-replacing"))]
+    edits = [None, None, None, ("hset str %s %s 1" % (hx(b"kid"), hx(b"builder-kid")), lambda b: b.headers.set("str", b"kid", b"builder-kid", True)),
+             ("hdel %s" % hx(b"kid"), lambda b: b.headers.delete(b"kid")),
+             ("cset str %s %s 1" % (hx(b"sub"), hx(b"someone")), lambda b: b.claims.set("str", b"sub", b"someone", True)),
+             ("cdel %s" % hx(b"sub"), lambda b: b.claims.delete(b"sub"))]
+    for se in range(60 if tier == "thorough" else 14):
+        world.op("bl 0 new", tag="cfg")
+        world.op("bl 0 setkey 0 %d %d" % it, tag="cfg")
+        b = PS.PyBuilder()
+        b.alg = "HS256"
+        cur = None
+        hist = []
+        for g in range(rng.randrange(4, 12)):
+            e = rng.choice(edits)
+            if e:
+                world.op("bl 0 " + e[0], tag="cfg")
+                e[1](b)
+                hist.append(e[0].split()[0])
+            if g == 0 or rng.random() < 0.6:
+                cur = sprogs[(se + g) % len(sprogs)] if g < 2 else rng.choice(sprogs)
+                world.op("bl 0 setcb " + (cur or "-"), tag="cfg")
+            hist.append("gen[%s]" % ("-" if not cur else cur.split(":")[0] + ":" + cur.split(":")[-2][-4:]))
+            now = clocks[(se + g) % len(clocks)]
+            world.op("clock %d" % now, tag="cfg")
+            eh, ep = b.expected(now, mk_cb(cur) if cur else None)
+            metas.append((len(world.ops), {"kind": "gen", "hdr": JL.jenc(eh), "pay": JL.jenc(ep), "alg": b.alg, "now": now,
+                                           "seq": "session: " + " ".join(hist)[-200:], "prog": cur}))
+            world.op("bl 0 gen", tag="gen")
     # content fidelity: header and claim members the registered names and near-misses of their usual values
     hnames = [b"typ", b"alg", b"kid", b"cty", b"crit", b"x5t", b"TYP", b"Alg", b"x"]
     cnames = [b"iat", b"exp", b"nbf", b"iss", b"sub", b"aud", b"jti", b"x", b"Iat"]
@@ -2089,6 +2172,18 @@ def jwk_shapes_suite(world, pool, tier, rng):
         docs.append(("via-%s-nul" % via, json.dumps(some[0]).encode() + b"\x00trailing", via))
         docs.append(("via-%s-set" % via, json.dumps({"keys": some[:3]}).encode(), via))
     docs.append(("via-str-NULL", None, "str"))
+    # a stream that cannot seek (a pipe from another process), and documents of every size through every entry point
+    for label_, text_ in (("via-pipe", json.dumps(some[0]).encode()), ("via-pipe-bad", b"{not json"), ("via-pipe-set", json.dumps({"keys": some[:3]}).encode()),
+                          ("via-pipe-empty", b"")):
+        docs.append((label_, text_, "pipe"))
+    for T in sizes([100, 1000, 4094, 4095, 4096, 4097, 4098, 8191, 8192, 8193, 16384, 65535, 65536, 65537] + ([1000000] if thorough else [200000]), lo=60):
+        ks_ = []
+        while len(json.dumps({"keys": ks_ + [some[len(ks_) % len(some)]], "pad": ""})) <= T and len(ks_) < 400:
+            ks_.append(some[len(ks_) % len(some)])
+        base_ = json.dumps({"keys": ks_, "pad": ""})
+        text_ = json.dumps({"keys": ks_, "pad": "p" * (T - len(base_))}).encode()
+        for via in ("pipe", "fp", "file", "strn"):
+            docs.append(("document of %d bytes" % len(text_), text_, via))
     for _ in range(3000 if thorough else 300):
         b = bytearray(json.dumps(rng.choice(some)).encode())
         for _ in range(rng.randrange(1, 4)):
@@ -2372,9 +2467,9 @@ def keyring_suite(world, pool, tier, rng):
                 world.op("jwks %d item %d" % (S0, i), tag="kr")
     # keyrings of every size around the powers of two (and a big one): count, first / middle / last / one-past item,
     # lookups of the first, middle, last and a missing kid, removal in the middle, lookups again
-    sizes = [0, 1, 2, 3, 7, 8, 9, 15, 16, 17, 31, 32, 33, 63, 64, 65, 100, 127, 128, 129, 255, 256, 257] + ([1000, 4096] if tier == "thorough" else [600])
+    ksizes = sizes([0, 1, 2, 3, 7, 8, 9, 15, 16, 17, 31, 32, 33, 63, 64, 65, 100, 127, 128, 129, 255, 256, 257] + ([1000, 4096] if tier == "thorough" else [600]), hi=5000)
     kb = pool.keys["oct32"]
-    for n in sizes:
+    for n in ksizes:
         world.op("jwks %d del" % S0, cmp=False, tag="cfg")
         kids = ["kid-%d" % i for i in range(n)]
         doc = json.dumps({"keys": [kb.jwk(extra={"kid": k_}) for k_ in kids]}).encode()
@@ -2393,6 +2488,15 @@ def keyring_suite(world, pool, tier, rng):
                 metas.append((len(world.ops), {"kind": "kr", "op": "find %s among %d%s" % (k_, len(lst), tag_), "want": str(want)}))
                 world.op("jwks %d find %s" % (S0, hx(k_.encode())), tag="kr")
         probe("")
+        # indices that do not fit 32 bits: beyond the end is beyond the end, whatever the low bits say
+        if n in (1, 3, 17, 64, 600, 1000):
+            for big in [2 ** 31 - 1, 2 ** 31, 2 ** 32 - 1, 2 ** 32, 2 ** 32 + 1, 2 ** 32 + n // 2, 2 ** 32 + n - 1, 2 ** 33, 3 * 2 ** 32 + n // 2, 2 ** 63 - 1, 2 ** 63,
+                        2 ** 63 + n // 2, 2 ** 64 - 2 ** 32 + n // 2, 2 ** 64 - 1]:
+                metas.append((len(world.ops), {"kind": "kr-item", "op": "get %d of %d" % (big, len(lst)), "want": "none"}))
+                world.op("jwks %d item %d" % (S0, big), tag="kr")
+                metas.append((len(world.ops), {"kind": "kr", "op": "free %d of %d" % (big, len(lst)), "want": "0"}))
+                world.op("jwks %d free %d" % (S0, big), tag="kr")
+            probe(" after removals beyond the end")
         if lst:
             idx = len(lst) // 2
             metas.append((len(world.ops), {"kind": "kr", "op": "free %d of %d" % (idx, len(lst)), "want": "1"}))
